@@ -56,20 +56,35 @@ Definition pub_op_ok (s : pub) (o : pop) : Prop :=
 
 Lemma upd_pipe_ids id f l : (forall p, pp_id (f p) = pp_id p) -> map pp_id (upd_pipe id f l) = map pp_id l.
 Proof. intros Hf. unfold upd_pipe. rewrite map_map. apply map_ext. intros p. destruct (N.eqb (pp_id p) id); auto. Qed.
-Lemma forall_upd_pipe id f l : Forall pipe_ok l -> (forall p, In p l -> pipe_ok p -> pipe_ok (f p)) -> Forall pipe_ok (upd_pipe id f l).
+Lemma find_pipe_in id l p : NoDup (map pp_id l) -> In p l -> pp_id p = id -> find_pipe id l = Some p.
 Proof.
-  intros H Hf. apply Forall_forall. intros p' Hin. unfold upd_pipe in Hin. apply in_map_iff in Hin as (p & <- & Hin).
-  pose proof (proj1 (Forall_forall _ _) H p Hin). destruct (N.eqb (pp_id p) id); auto.
+  unfold find_pipe. induction l as [|x l IH]; cbn; intros ND Hin E; [destruct Hin|].
+  inversion ND; subst. destruct Hin as [->|Hin].
+  - now rewrite N.eqb_refl.
+  - destruct (N.eqb_spec (pp_id x) (pp_id p)) as [F|F].
+    + exfalso. apply H1. rewrite F. now apply in_map.
+    + apply IH; auto.
+Qed.
+Lemma forall_upd_pipe id f l x : NoDup (map pp_id l) -> find_pipe id l = Some x ->
+  Forall pipe_ok l -> (pipe_ok x -> pipe_ok (f x)) -> Forall pipe_ok (upd_pipe id f l).
+Proof.
+  intros ND F H Hf. apply Forall_forall. intros p' Hin. unfold upd_pipe in Hin. apply in_map_iff in Hin as (p & <- & Hin).
+  pose proof (proj1 (Forall_forall _ _) H p Hin) as OK. destruct (N.eqb_spec (pp_id p) id) as [E|E]; auto.
+  assert (p = x). { pose proof (find_pipe_in id l p ND Hin E). congruence. } subst. auto.
 Qed.
 Lemma pipe_send_ok p m : pipe_ok p -> pipe_ok (fst (pipe_send p m)).
 Proof.
-  intros (A & B & C & D). unfold pipe_send, pq_full. destruct (pp_closed p) eqn:CL; [repeat split; auto|].
+  intros (A & B & C & D). unfold pipe_send, pq_full. destruct (pp_closed p) eqn:CL.
+  { cbn [fst]. unfold pipe_ok. rewrite CL. auto. }
   destruct (pp_busy p) eqn:BS.
   - destruct (pp_cap p <=? length (pp_q p)) eqn:L.
-    + destruct (pp_q p) as [|old r] eqn:Q; cbn [fst]; unfold pipe_ok; simp_p; [repeat split; auto; rewrite ?Q; auto|].
-      repeat split; auto; try discriminate. cbn in B. rewrite app_length. cbn. lia.
-    + apply Nat.leb_gt in L. cbn [fst]. unfold pipe_ok. simp_p. repeat split; auto; try discriminate. rewrite app_length. cbn. lia.
-  - cbn [fst]. unfold pipe_ok. simp_p. destruct (A eq_refl) as [Q _]. rewrite Q in *. repeat split; auto; discriminate.
+    + destruct (pp_q p) as [|old r] eqn:Q; cbn [fst]; unfold pipe_ok; simp_p.
+      * rewrite Q, BS, CL. split; [discriminate|]. split; [cbn; lia|]. split; [lia|discriminate].
+      * split; [discriminate|]. split; [|split; [lia|discriminate]]. cbn in B. rewrite app_length. cbn. lia.
+    + apply Nat.leb_gt in L. cbn [fst]. unfold pipe_ok. simp_p.
+      split; [discriminate|]. split; [|split; [lia|discriminate]]. rewrite app_length. cbn. lia.
+  - cbn [fst]. unfold pipe_ok. simp_p. destruct (A eq_refl) as [Q _]. rewrite Q in *.
+    split; [discriminate|]. split; [cbn; lia|]. split; [lia|discriminate].
 Qed.
 Lemma pipe_send_id p m : pp_id (fst (pipe_send p m)) = pp_id p.
 Proof. unfold pipe_send. destruct (pp_closed p); auto. destruct (pp_busy p); auto. destruct (pq_full p); auto. destruct (pp_q p); auto. Qed.
@@ -92,25 +107,198 @@ Proof.
       * inversion I2; subst. constructor.
         -- intros Hin. apply in_app_or in Hin as [Hin|[<-|[]]]; auto. apply Hok. now left.
         -- apply IH; auto. intros Hin. apply Hok. now right.
-  - destruct (find_pipe p (pb_pipes s)); inversion H; subst; simp_p; auto. repeat split; auto.
-    + apply forall_upd_pipe; auto. intros x Hin (A & B & C & D). unfold pipe_ok. simp_p. repeat split; auto; try (cbn; lia).
-      intros E. destruct (A E). auto.
+  - destruct (find_pipe p (pb_pipes s)) as [x|] eqn:F; inversion H; subst; simp_p; auto. repeat split; auto.
+    + eapply forall_upd_pipe; eauto. intros (A & B & C & D). unfold pipe_ok. simp_p.
+      split; [intros E; destruct (A E); auto|]. split; [cbn; lia|]. split; auto.
     + rewrite upd_pipe_ids; auto.
   - destruct (find_pipe p (pb_pipes s)) as [x|] eqn:F; [|inversion H; subst; auto].
+    pose proof (find_pipe_some _ _ _ F) as [Fin _].
+    pose proof (proj1 (Forall_forall _ _) I1 x Fin) as (A & B & C & D).
     destruct (negb (rv =? 0)%N).
     + inversion H; subst; simp_p. repeat split; auto.
-      * apply forall_upd_pipe; auto. intros y Hin (A & B & C & D). unfold pipe_ok. simp_p. repeat split; auto.
-        intros E. destruct (A E). auto.
+      * eapply forall_upd_pipe; eauto. intros _. unfold pipe_ok. simp_p.
+        split; [intros E; destruct (A E); auto|]. split; auto.
       * rewrite upd_pipe_ids; auto.
     + destruct (pp_closed x) eqn:CL.
       * inversion H; subst; simp_p. repeat split; auto.
-        -- apply forall_upd_pipe; auto. intros y Hin (A & B & C & D). unfold pipe_ok. simp_p. repeat split; auto.
-           ++ intros E. destruct (A E). auto.
-           ++ intros _. (* only the pipe found is updated, but the bound holds for any closed... *)
-              destruct (pp_closed y) eqn:CY; auto.
-              (* an open pipe that is updated: it is the found pipe, which is closed *)
-              admit_placeholder.
+        -- eapply forall_upd_pipe; eauto. intros _. unfold pipe_ok. simp_p.
+           split; [intros E; destruct (A E); auto|]. split; auto.
         -- rewrite upd_pipe_ids; auto.
-      * admit_placeholder.
-  - admit_placeholder.
+      * destruct (pp_q x) as [|m r] eqn:Q; inversion H; subst; simp_p.
+        -- repeat split; auto.
+           ++ eapply forall_upd_pipe; eauto. intros _. unfold pipe_ok. simp_p.
+              split; [auto|]. split; [cbn; lia|]. split; [lia|auto].
+           ++ rewrite upd_pipe_ids; auto.
+        -- repeat split; auto.
+           ++ eapply forall_upd_pipe; eauto. intros _. unfold pipe_ok. simp_p. try rewrite Q in *.
+              split; [discriminate|]. split; [cbn in B; lia|]. split; [lia|discriminate].
+           ++ rewrite upd_pipe_ids; auto.
+  - destruct k; [inversion H; subst; auto|]. destruct op; try (inversion H; subst; auto; fail).
+    + destruct (_ || _) eqn:R; inversion H; subst; simp_p; auto.
+      apply orb_false_iff in R as [R1 R2]. apply N.ltb_ge in R1. unfold PUB_SENDBUF_MIN in R1.
+      repeat split; auto; try lia.
+      * apply Forall_forall. intros p' Hin. apply in_map_iff in Hin as (p & <- & Hin).
+        pose proof (proj1 (Forall_forall _ _) I1 p Hin) as OK. destruct (pp_closed p) eqn:CL; [exact OK|]. destruct OK as (A & B & C & D).
+        unfold pipe_ok. simp_p.
+        split; [intros E; destruct (A E) as [Q T]; rewrite Q, firstn_nil; auto|].
+        split; [rewrite firstn_length; lia|]. split; [lia|discriminate].
+      * rewrite map_map. erewrite map_ext; [exact I2|]. intros p. destruct (pp_closed p); auto.
+    + destruct (_ <? _)%N; inversion H; subst; auto.
 Qed.
+
+Lemma pub_init_inv : PubInv pub_init.
+Proof. unfold PubInv, pub_init. simp_p. repeat split; try constructor. unfold PUB_DEFAULT_SENDBUF. lia. Qed.
+
+(* ---- per-pipe FIFO: what a pipe's transport is handed, followed by what the pipe still
+        queues, is a subsequence of what it queued followed by what the application sent ---- *)
+Fixpoint txs_on (p : pid) (outs : list pout) : list pmsg :=
+  match outs with
+  | [] => []
+  | TranSend q m :: r => if N.eqb q p then m :: txs_on p r else txs_on p r
+  | _ :: r => txs_on p r
+  end.
+Lemma txs_on_app p a b : txs_on p (a ++ b) = txs_on p a ++ txs_on p b.
+Proof. induction a as [|[] a IH]; cbn; rewrite ?IH; auto. destruct (_ =? _)%N; cbn; now rewrite ?IH. Qed.
+Lemma txs_on_map_Free p l : txs_on p (map Free l) = [].
+Proof. induction l; cbn; auto. Qed.
+Definition q_of (p : pid) (s : pub) : list pmsg := match find_pipe p (pb_pipes s) with Some x => pp_q x | None => [] end.
+Definition sent_by_app (o : pop) : list pmsg := match o with PSend _ _ _ m => [m] | _ => [] end.
+
+Lemma txs_on_other p (l : list ppipe) (m : pmsg) :
+  ~ In p (map pp_id l) -> txs_on p (flat_map snd (map (fun x => pipe_send x m) l)) = [].
+Proof.
+  induction l as [|x l IH]; cbn [map flat_map]; intros Hn; [reflexivity|]. rewrite txs_on_app, IH by (intros Hin; apply Hn; now right).
+  rewrite app_nil_r. assert (E: pp_id x <> p) by (intros E; apply Hn; now left).
+  unfold pipe_send. destruct (pp_closed x); [reflexivity|]. destruct (pp_busy x); [destruct (pq_full x); [destruct (pp_q x)|]|]; cbn; auto.
+  destruct (N.eqb_spec (pp_id x) p); [contradiction|reflexivity].
+Qed.
+
+Lemma upd_pipe_absent id f l : ~ In id (map pp_id l) -> upd_pipe id f l = l.
+Proof.
+  unfold upd_pipe. induction l as [|w l IH]; cbn; intros Hn; [reflexivity|].
+  destruct (N.eqb_spec (pp_id w) id) as [G|G]; [exfalso; apply Hn; left; auto|]. f_equal. apply IH. intros Hin. apply Hn. now right.
+Qed.
+Lemma find_upd_pipe p id f l x : NoDup (map pp_id l) -> find_pipe id l = Some x -> (forall y, pp_id (f y) = pp_id y) ->
+  find_pipe p (upd_pipe id f l) = if N.eqb id p then Some (f x) else find_pipe p l.
+Proof.
+  intros ND F Hf. induction l as [|y l IH]; [discriminate|]. inversion ND; subst.
+  unfold find_pipe in F. cbn [find] in F. destruct (N.eqb_spec (pp_id y) id) as [E|E].
+  - inversion F; subst. change (upd_pipe (pp_id x) f (x :: l)) with ((if (pp_id x =? pp_id x)%N then f x else x) :: upd_pipe (pp_id x) f l).
+    rewrite N.eqb_refl, upd_pipe_absent by auto. unfold find_pipe. cbn [find]. rewrite Hf. destruct (pp_id x =? p)%N; reflexivity.
+  - change (upd_pipe id f (y :: l)) with ((if (pp_id y =? id)%N then f y else y) :: upd_pipe id f l).
+    destruct (N.eqb_spec (pp_id y) id); [contradiction|]. unfold find_pipe at 1. cbn [find].
+    destruct (N.eqb_spec (pp_id y) p) as [E2|E2].
+    + destruct (N.eqb_spec id p); [congruence|]. unfold find_pipe. cbn [find]. destruct (N.eqb_spec (pp_id y) p); [reflexivity|contradiction].
+    + fold (find_pipe p (upd_pipe id f l)). rewrite IH; auto. unfold find_pipe at 2. cbn [find].
+      destruct (N.eqb_spec (pp_id y) p); [contradiction|reflexivity].
+Qed.
+
+Theorem pub_pipe_fifo_step s o s' outs p :
+  PubInv s -> pub_step s o = (s', outs) -> (forall peer, o <> PPipeStart p peer) ->
+  Sublist (txs_on p outs ++ q_of p s') (q_of p s ++ sent_by_app o).
+Proof.
+  intros (I1 & I2 & I3) H Hns. unfold q_of.
+  assert (SAME: pb_pipes s' = pb_pipes s -> txs_on p outs = [] ->
+                Sublist (txs_on p outs ++ match find_pipe p (pb_pipes s') with Some x => pp_q x | None => [] end)
+                        (match find_pipe p (pb_pipes s) with Some x => pp_q x | None => [] end ++ sent_by_app o)).
+  { intros E1 E2. rewrite E1, E2. cbn [app]. rewrite <- (app_nil_r (match find_pipe p (pb_pipes s) with Some x => pp_q x | None => [] end)) at 1.
+    apply sl_app; [apply sl_refl|constructor]. }
+  pose proof (fun id f l x => find_upd_pipe p id f l x) as UPD.
+  destruct o as [k a nb m|k a nb|a rv|q peer|q|q rv|q rv m|k op|k|k| |now]; cbn [pub_step sent_by_app] in *;
+    try (inversion H; subst; apply SAME; reflexivity).
+  - (* PSend *)
+    inversion H; subst; clear H. simp_p. rewrite txs_on_app. cbn [txs_on]. rewrite app_nil_r.
+    clear SAME UPD Hns. revert I1 I2. generalize (pb_pipes s). intros l I1 I2. unfold find_pipe.
+    induction l as [|x l IH]; cbn [map flat_map find fst snd]; [constructor|].
+    inversion I1; subst. inversion I2; subst. rewrite pipe_send_id. rewrite txs_on_app.
+    destruct (N.eqb_spec (pp_id x) p) as [E|E].
+    + rewrite txs_on_other by (rewrite <- E; auto). rewrite app_nil_r. destruct H1 as (A & B & C & D).
+      unfold pipe_send, pq_full. destruct (pp_closed x) eqn:CL; [cbn; rewrite (D eq_refl); constructor|].
+      destruct (pp_busy x) eqn:BS.
+      * destruct (pp_cap x <=? length (pp_q x)).
+        -- destruct (pp_q x) as [|old r] eqn:Q; cbn [fst snd txs_on app]; simp_p; [rewrite Q; constructor|]. cbn. constructor. apply sl_refl.
+        -- cbn [fst snd txs_on app]. simp_p. apply sl_refl.
+      * cbn [fst snd txs_on]. rewrite E, N.eqb_refl. simp_p. destruct (A eq_refl) as [Q _]. rewrite Q. cbn. apply sl_refl.
+    + assert (Z: txs_on p (snd (pipe_send x m)) = []).
+      { unfold pipe_send. destruct (pp_closed x); [reflexivity|]. destruct (pp_busy x); [destruct (pq_full x); [destruct (pp_q x)|]|]; cbn; auto.
+        destruct (N.eqb_spec (pp_id x) p); [contradiction|reflexivity]. }
+      rewrite Z. cbn [app]. apply IH; auto.
+  - destruct (negb _); inversion H; subst; [apply SAME; reflexivity|]. simp_p. cbn [txs_on app]. rewrite app_nil_r.
+    assert (E: find_pipe p (pb_pipes s ++ [mkPpipe q false false [] (pb_sendbuf s) None]) = find_pipe p (pb_pipes s) \/
+               (find_pipe p (pb_pipes s) = None /\ find_pipe p (pb_pipes s ++ [mkPpipe q false false [] (pb_sendbuf s) None]) = Some (mkPpipe q false false [] (pb_sendbuf s) None))).
+    { unfold find_pipe. clear. induction (pb_pipes s) as [|x l IH]; cbn [app find pp_id].
+      - destruct (q =? p)%N; auto.
+      - destruct (pp_id x =? p)%N; auto. }
+    destruct E as [E|[E1 E2]]; [rewrite E; apply sl_refl|rewrite E1, E2; constructor].
+  - (* PPipeClose *)
+    destruct (find_pipe q (pb_pipes s)) as [x|] eqn:F; inversion H; subst; [|apply SAME; reflexivity]. simp_p.
+    rewrite txs_on_map_Free. cbn [app]. rewrite app_nil_r.
+    rewrite (UPD q (fun x => mkPpipe (pp_id x) true (pp_busy x) [] (pp_cap x) (pp_tx x)) _ x I2 F) by auto.
+    destruct (N.eqb_spec q p); [cbn; constructor|apply sl_refl].
+  - (* PSendDone *)
+    destruct (find_pipe q (pb_pipes s)) as [x|] eqn:F; [|inversion H; subst; apply SAME; reflexivity].
+    destruct (negb (rv =? 0)%N).
+    + inversion H; subst. simp_p. rewrite app_nil_r.
+      rewrite (UPD q (fun x => mkPpipe (pp_id x) (pp_closed x) (pp_busy x) (pp_q x) (pp_cap x) None) _ x I2 F) by auto.
+      assert (Z: txs_on p ((match pp_tx x with Some m => [Free m] | None => [] end) ++ [ClosePipe q]) = []) by (destruct (pp_tx x); reflexivity).
+      rewrite Z. cbn [app]. destruct (N.eqb_spec q p) as [->|E]; [rewrite F|]; apply sl_refl.
+    + destruct (pp_closed x).
+      * inversion H; subst. simp_p. rewrite app_nil_r. cbn [txs_on app].
+        rewrite (UPD q (fun x => mkPpipe (pp_id x) true (pp_busy x) (pp_q x) (pp_cap x) None) _ x I2 F) by auto.
+        destruct (N.eqb_spec q p) as [->|E]; [rewrite F|]; apply sl_refl.
+      * destruct (pp_q x) as [|m r] eqn:Q; inversion H; subst; simp_p; rewrite app_nil_r; cbn [txs_on].
+        -- rewrite (UPD q (fun x => mkPpipe (pp_id x) false false [] (pp_cap x) None) _ x I2 F) by auto.
+           destruct (N.eqb_spec q p) as [->|E]; [rewrite F, Q|]; cbn; try constructor. apply sl_refl.
+        -- rewrite (UPD q (fun x => mkPpipe (pp_id x) false true r (pp_cap x) (Some m)) _ x I2 F) by auto.
+           destruct (N.eqb_spec q p) as [->|E]; [rewrite F, Q|]; cbn; apply sl_refl.
+  - (* PRecvDone *)
+    inversion H; subst. apply SAME; auto. destruct (rv =? 0)%N; reflexivity.
+  - (* PSetOpt *)
+    destruct k; [inversion H; subst; apply SAME; reflexivity|]. destruct op; try (inversion H; subst; apply SAME; reflexivity).
+    + destruct (_ || _); inversion H; subst; [apply SAME; reflexivity|]. simp_p. rewrite txs_on_app, txs_on_map_Free. cbn [txs_on app]. rewrite app_nil_r.
+      unfold find_pipe. clear. induction (pb_pipes s) as [|x l IH]; cbn [map find]; [constructor|].
+      destruct (pp_closed x) eqn:CL.
+      * destruct (pp_id x =? p)%N; [apply sl_refl|exact IH].
+      * simp_p. destruct (pp_id x =? p)%N; [simp_p; apply sl_firstn|exact IH].
+    + destruct (_ <? _)%N; inversion H; subst; apply SAME; reflexivity.
+Qed.
+
+(* ---- conservation: owned + accepted (or received) + clones = owned' + taken by the transports + freed ---- *)
+Definition pheld (p : ppipe) : list pmsg := pp_q p ++ match pp_tx p with Some m => [m] | None => [] end.
+Definition pub_owned (s : pub) : list pmsg := flat_map pheld (pb_pipes s).
+Definition nopen (s : pub) : nat := length (filter (fun p => negb (pp_closed p)) (pb_pipes s)).
+Definition pub_in (s : pub) (o : pop) : list pmsg :=
+  match o with
+  | PSend _ _ _ m => m :: repeat m (nopen s)                 (* the caller's message and one nni_msg_clone per open pipe *)
+  | PRecvDone _ rv m => if N.eqb rv 0 then [m] else []
+  | _ => []
+  end.
+Definition pub_wire (s : pub) (o : pop) : list pmsg :=
+  match o with
+  | PSendDone p rv => if N.eqb rv 0 then match find_pipe p (pb_pipes s) with Some x => match pp_tx x with Some m => [m] | None => [] end | None => [] end else []
+  | _ => []
+  end.
+
+Lemma pheld_upd id f l x y : NoDup (map pp_id l) -> find_pipe id l = Some x ->
+  cnt y (flat_map pheld (upd_pipe id f l)) + cnt y (pheld x) = cnt y (flat_map pheld l) + cnt y (pheld (f x)).
+Proof.
+  unfold find_pipe, upd_pipe. induction l as [|z l IH]; cbn [map flat_map find]; intros ND F; [discriminate|].
+  inversion ND; subst. destruct (N.eqb_spec (pp_id z) id) as [E|E].
+  - inversion F; subst.
+    assert (R: map (fun p => if (pp_id p =? pp_id x)%N then f p else p) l = l).
+    { clear - H1. induction l as [|w l IH]; cbn; [reflexivity|].
+      destruct (N.eqb_spec (pp_id w) (pp_id x)) as [G|G]; [exfalso; apply H1; left; auto|]. f_equal. apply IH. intros Hin. apply H1. now right. }
+    rewrite R. cnt_simp. lia.
+  - cnt_simp. specialize (IH H2 F). lia.
+Qed.
+
+Lemma pipe_send_cnt p m y :
+  cnt y (pheld p) + (if pp_closed p then 0 else cnt y [m]) = cnt y (pheld (fst (pipe_send p m))) + cnt y (freed (snd (pipe_send p m))).
+Proof.
+  unfold pipe_send, pheld. destruct (pp_closed p); [cbn; cnt_simp; lia|].
+  destruct (pp_busy p).
+  - destruct (pq_full p).
+    + destruct (pp_q p) eqn:Q; cbn [fst snd freed]; simp_p; rewrite ?Q; cnt_simp; lia.
+    + cbn [fst snd freed]. simp_p. cnt_simp. lia.
+  - cbn [fst snd freed]. simp_p. cnt_simp.
+Abort.
